@@ -40,4 +40,17 @@ theorem ttl_vs_redis (ms : Nat) (h : 1 ≤ ms) :
   unfold Spec.ttlSeconds Spec.redisTtl nsPerSec nsPerMs
   split <;> omega
 
+/-- with the repaired first arm, TTL is the remaining time in seconds rounded up for EVERY positive remaining time -/
+theorem ttlOfRemainingWith_fixed_ceil (ns : Nat) (h : 0 < ns) : ttlOfRemainingWith true ns = Spec.ttlSeconds ns := by
+  unfold ttlOfRemainingWith Spec.ttlSeconds nsPerSec at *
+  simp only [if_true]
+  split
+  · omega
+  · split
+    · omega
+    · split <;> omega
+
+theorem ttlOfRemainingWith_unfixed (ns : Nat) : ttlOfRemainingWith false ns = ttlOfRemaining ns := by
+  simp [ttlOfRemainingWith]
+
 end Ferrous.Exp
